@@ -9,11 +9,11 @@ Theorems over `Xmp.Control` (model of `src/control.c` and of the part of `xmp_pl
 -/
 namespace Xmp.Control
 
-/-- What the property demands of the frame rendered after a successful jump to order `p` of
-sequence `q` (prior state `s`): success, `xmp_frame_info` reports order `p`, its pattern, row 0,
-tick 0, sequence `q`; when `read_row` starts, speed/bpm/volume/time are those the scan recorded
-for `p` and no break, jump, pattern delay, row delay or pattern loop is pending. -/
-structure LandsOn (m : CMod) (s : St) (fr : FrameRes) (p q : Int) : Prop where
+/-- The frame rendered after the call enters order `p` of sequence `q` (prior state `s`): success,
+`xmp_frame_info` reports order `p`, its pattern, row 0, tick 0, sequence `q`; when `read_row` starts,
+speed/bpm/volume/time are those the scan recorded for `p`.  `LandsOn` adds: no break, jump,
+pattern delay, row delay or pattern loop is pending. -/
+structure Enters (m : CMod) (s : St) (fr : FrameRes) (p q : Int) : Prop where
   rc : fr.rc = 0
   pos : (frameInfo m fr.st).pos = p
   pattern : (frameInfo m fr.st).pattern = m.xxoAt p
@@ -26,23 +26,23 @@ structure LandsOn (m : CMod) (s : St) (fr : FrameRes) (p q : Int) : Prop where
   bpm : fr.st.bpm = (m.infoAt p).bpm
   gvol : fr.st.gvol = (m.infoAt p).gvl
   time : fr.st.time = (m.infoAt p).time
+
+/-- `Enters` + the flow state is clean when `read_row` starts. -/
+structure LandsOn (m : CMod) (s : St) (fr : FrameRes) (p q : Int) : Prop where
+  enters : Enters m s fr p q
   mid : ∃ s', fr.mid = some s' ∧ s'.f.pbreak = 0 ∧ s'.f.jump = -1 ∧ s'.f.jumpline = 0 ∧
         s'.f.delay = 0 ∧ s'.f.rowdelay = 0 ∧ s'.f.loopDest = -1 ∧ s'.f.loopStart = -1 ∧
         s'.f.loopCount = 0
 
 /-- the frame that enters order `t` (helper for all landing theorems). -/
-theorem landsOn_entered (m : CMod) (s0 s : St) (t q ep : Int) (hv : Valid m t) (hq : s.sequence = q)
-    (hsp : s.speed = s0.speed)
-    (hflow : s.f.pbreak = 0 ∧ s.f.delay = 0 ∧ s.f.rowdelay = 0 ∧ s.f.loopDest = -1 ∧
-             s.f.loopStart = -1 ∧ s.f.loopCount = 0) :
-    LandsOn m s0 ⟨0, some (entered m s t ep), checkEnd m (entered m s t ep)⟩ t q := by
+theorem enters_entered (m : CMod) (s0 s : St) (t q ep : Int) (hv : Valid m t) (hq : s.sequence = q)
+    (hsp : s.speed = s0.speed) :
+    Enters m s0 ⟨0, some (entered m s t ep), checkEnd m (entered m s t ep)⟩ t q := by
   obtain ⟨hp0, hpl, hpat, _⟩ := hv
   obtain ⟨c1, c2, c3, c4, c5, c6, c7, c8, c9, _, _⟩ := checkEnd_fields m (entered m s t ep)
   obtain ⟨e1, e2, e3, e4, e5, e6, e7, e8, e9, _, _, _⟩ := entered_fields m s t ep
-  obtain ⟨g1, g2, g3, g4, g5, g6, _, g8, g9⟩ := entered_flow m s t ep
-  obtain ⟨f1, f2, f3, f4, f5, f6⟩ := hflow
   have hin : 0 ≤ t ∧ t < m.len := ⟨hp0, hpl⟩
-  refine ⟨rfl, ?_, ?_, ?_, ?_, ?_, ?_, ?_, ?_, ?_, ?_, ?_, ?_⟩
+  refine ⟨rfl, ?_, ?_, ?_, ?_, ?_, ?_, ?_, ?_, ?_, ?_, ?_⟩
   · simp [frameInfo, c2, e2, hin]
   · simp [frameInfo, c2, e2, hin]
   · simp [frameInfo, c3, e3]
@@ -54,9 +54,17 @@ theorem landsOn_entered (m : CMod) (s0 s : St) (t q ep : Int) (hv : Valid m t) (
   · rw [c7, e7]
   · rw [c8, e8]
   · rw [c9, e9]
-  · refine ⟨_, rfl, ?_⟩
-    rw [g1, g2, g3, g4, g5, g6, g8, g9, f1, f2, f3, f4, f5, f6]
-    simp
+
+theorem landsOn_entered (m : CMod) (s0 s : St) (t q ep : Int) (hv : Valid m t) (hq : s.sequence = q)
+    (hsp : s.speed = s0.speed)
+    (hflow : s.f.pbreak = 0 ∧ s.f.delay = 0 ∧ s.f.rowdelay = 0 ∧ s.f.loopDest = -1 ∧
+             s.f.loopStart = -1 ∧ s.f.loopCount = 0) :
+    LandsOn m s0 ⟨0, some (entered m s t ep), checkEnd m (entered m s t ep)⟩ t q := by
+  refine ⟨enters_entered m s0 s t q ep hv hq hsp, _, rfl, ?_⟩
+  obtain ⟨g1, g2, g3, g4, g5, g6, _, g8, g9⟩ := entered_flow m s t ep
+  obtain ⟨f1, f2, f3, f4, f5, f6⟩ := hflow
+  rw [g1, g2, g3, g4, g5, g6, g8, g9, f1, f2, f3, f4, f5, f6]
+  simp
 
 /-
 Full-strength statement (NOT provable, the code violates two of its clauses):
@@ -238,5 +246,373 @@ example : ∃ s1 fr, xmpSetRow wTwo { wTwoMid with f := { numRows := 64, delay :
     playFrame wTwo s1 = some fr ∧ fr.rc = 0 ∧ (frameInfo wTwo fr.st).pos = 1 ∧ (frameInfo wTwo fr.st).row = 17 ∧
     (frameInfo wTwo fr.st).frame = 0 ∧ (frameInfo wTwo fr.st).sequence = 0 :=
   C17_set_row wTwo _ 17 rfl (by decide) (by decide) (by decide) (by decide) (by decide) (by decide) (by decide)
+
+/-! ### xmp_next_position / xmp_prev_position -/
+
+/-- the order `set_position(cur+1, 1)` arrives at: 0xfe skip markers, then orders without a
+pattern, are passed over. -/
+def nextTarget (m : CMod) (seq cur : Int) : Option Int :=
+  (skipMarkers m 1 (m.entry seq) (skipFuel m) (cur + 1)).map (skipInvalid m (skipFuel m))
+
+/-- the order `set_position(cur-1, -1)` arrives at: 0xfe skip markers are passed over, not below
+the entry point. -/
+def prevTarget (m : CMod) (seq cur : Int) : Option Int :=
+  skipMarkers m (-1) (m.entry seq) (skipFuel m) (cur - 1)
+
+/-- a playing context with no reposition pending, sitting on order `s.pos` of its sequence. -/
+structure Steady (m : CMod) (s : St) : Prop where
+  playing : s.playing = true
+  nopending : s.pos = s.ord
+  inlist : 0 ≤ s.pos ∧ s.pos < m.len
+  noend : ¬(m.marker = true ∧ m.xxoAt s.ord = 0xff)
+  seqok : s.sequence ≠ 0xff ∧ 0 ≤ s.sequence
+
+/-- **C17_next_prev, forward inside the sequence**: with no reposition pending, when the order
+reached from `cur+1` (passing over skip markers / pattern-less orders) holds a pattern and
+belongs to the current sequence, `xmp_next_position` reports it and the next frame is its row
+0, tick 0 (flow state cleared), still in the same sequence. -/
+theorem C17_next_inside (m : CMod) (s : St) (t : Int) (hst : Steady m s)
+    (hnext : s.pos + 1 < m.len) (ht : nextTarget m s.sequence s.pos = some t)
+    (hM : Member m t s.sequence) :
+    ∃ s1 fr, xmpNextPosition m s = some (t, s1) ∧ playFrame m s1 = some fr ∧
+      LandsOn m s fr t s.sequence := by
+  obtain ⟨hp, hnp, hin, hend, hq1, hq0⟩ := hst
+  obtain ⟨hv, hseq, _, _, he0, hep⟩ := hM
+  unfold nextTarget at ht
+  obtain ⟨t1, hsk, ht1⟩ := Option.map_eq_some_iff.mp ht
+  have hge1 := skipMarkers_ge m 1 _ (by omega) _ _ _ hsk
+  have hge2 := skipInvalid_ge m (skipFuel m) t1
+  have htgt : t > s.pos := by omega
+  have hsp : setPosition m s (s.pos + 1) 1 = some (landed m s s.sequence t) :=
+    setPosition_target m s (s.pos + 1) 1 s.sequence t1 t ⟨by omega, hnext⟩ (by simp) hq1 hq0 hsk
+      (by simp [ht1]) hv (fun _ => hseq)
+  have hlt : s.pos < m.len := by omega
+  have ht0 : ¬ (t = 0) := by omega
+  refine ⟨landed m s s.sequence t, ⟨0, some (entered m (landed m s s.sequence t) t
+      (repoEndPoint m (landed m s s.sequence t) t)),
+    checkEnd m (entered m (landed m s s.sequence t) t (repoEndPoint m (landed m s s.sequence t) t))⟩, ?_, ?_, ?_⟩
+  · simp [xmpNextPosition, hp, hlt, hsp, landed, ht0]
+  · apply playFrame_enters m (landed m s s.sequence t) t
+    · simpa [landed] using hp
+    · simpa [landed] using hend
+    · simp only [landed, if_neg ht0]; omega
+    · simp only [landed, if_neg ht0]; omega
+    · exact hv
+    · left; simp [landed, ht0]
+    · simpa [landed] using hep
+  · apply landsOn_entered m s (landed m s s.sequence t) t s.sequence _ hv
+    · simp [landed]
+    · simp [landed]
+    · simp [landed, resetFlow]
+
+/-- "exactly one order": when the very next order holds a pattern, it is the target. -/
+theorem C17_next_one_order (m : CMod) (seq cur : Int) (hv : Valid m (cur + 1)) :
+    nextTarget m seq cur = some (cur + 1) := by
+  unfold nextTarget
+  simp only [skipFuel, skipMarkers_nomark m 1 _ _ (cur + 1) (valid_nomark hv), Option.map_some,
+    skipInvalid_valid m _ (cur + 1) hv.2.2.1]
+
+/-- **C17_next_prev, fixed at the forward end**: at the last order of the list, or when the
+order reached from `cur+1` is past the list, the end marker, or an order of another sequence,
+`xmp_next_position` reports the current position and changes nothing. -/
+theorem C17_next_stays (m : CMod) (s : St) (hst : Steady m s)
+    (h : s.pos + 1 ≥ m.len ∨ ∃ t, nextTarget m s.sequence s.pos = some t ∧
+          (t ≥ m.len ∨ (m.marker = true ∧ m.xxoAt t = 0xff) ∨ m.seqOf t ≠ s.sequence)) :
+    xmpNextPosition m s = some (s.pos, s) := by
+  obtain ⟨hp, hnp, hin, hend, hq1, hq0⟩ := hst
+  have hlt : s.pos < m.len := hin.2
+  by_cases hl : s.pos + 1 ≥ m.len
+  · have h3 : ¬ s.sequence < 0 := by omega
+    have h4 : ¬ (0 ≤ s.pos + 1 ∧ s.pos + 1 < m.len) := by omega
+    have h5 : ¬ (s.pos + 1 < m.len) := by omega
+    simp [xmpNextPosition, hp, hlt, setPosition, hq1, h3, h4, setPositionFin, h5]
+    cases s; simp_all
+  · rcases h with h | ⟨t, ht, hout⟩
+    · exact absurd h hl
+    · unfold nextTarget at ht
+      obtain ⟨t1, hsk, ht1⟩ := Option.map_eq_some_iff.mp ht
+      have := setPosition_stay m s (s.pos + 1) 1 t1 t (by decide) ⟨by omega, by omega⟩ hq1 hq0 hsk
+        (by simp [ht1]) hout
+      simp [xmpNextPosition, hp, hlt, this]
+
+/-- **C17_next_prev, backward inside the sequence**. -/
+theorem C17_prev_inside (m : CMod) (s : St) (t : Int) (hst : Steady m s)
+    (hprev : s.pos > m.entry s.sequence) (he : 0 ≤ m.entry s.sequence)
+    (ht : prevTarget m s.sequence s.pos = some t) (hM : Member m t s.sequence) :
+    ∃ s1 fr, xmpPrevPosition m s = some (t, s1) ∧ playFrame m s1 = some fr ∧
+      LandsOn m s fr t s.sequence := by
+  obtain ⟨hp, hnp, hin, hend, hq1, hq0⟩ := hst
+  obtain ⟨hv, hseq, _, _, he0, hep⟩ := hM
+  unfold prevTarget at ht
+  have hle := skipMarkers_le m (-1) _ (by decide) _ _ _ ht
+  have hsp : setPosition m s (s.pos - 1) (-1) = some (landed m s s.sequence t) :=
+    setPosition_target m s (s.pos - 1) (-1) s.sequence t t ⟨by omega, by omega⟩ (by simp) hq1 hq0 ht
+      (by simp) hv (fun _ => hseq)
+  have hne : ¬ (s.pos = m.entry s.sequence) := by omega
+  refine ⟨landed m s s.sequence t, ⟨0, some (entered m (landed m s s.sequence t) t
+      (repoEndPoint m (landed m s s.sequence t) t)),
+    checkEnd m (entered m (landed m s s.sequence t) t (repoEndPoint m (landed m s s.sequence t) t))⟩, ?_, ?_, ?_⟩
+  · have h0 := hv.1
+    by_cases ht0 : t = 0
+    · simp [xmpPrevPosition, hp, hne, hprev, hsp, landed, ht0]
+    · have : ¬ (t < 0) := by omega
+      simp [xmpPrevPosition, hp, hne, hprev, hsp, landed, ht0, this]
+  · apply playFrame_enters m (landed m s s.sequence t) t
+    · simpa [landed] using hp
+    · simpa [landed] using hend
+    · simp only [landed]; split <;> omega
+    · simp only [landed]; split <;> omega
+    · exact hv
+    · by_cases h0 : t = 0
+      · right; subst h0; simp only [landed, if_true, true_and]; omega
+      · left; simp [landed, h0]
+    · simpa [landed] using hep
+  · apply landsOn_entered m s (landed m s s.sequence t) t s.sequence _ hv
+    · simp [landed]
+    · simp [landed]
+    · simp [landed, resetFlow]
+
+/-- **C17_next_prev, fixed at the backward end**: at the entry point of the sequence
+`xmp_prev_position` restarts the entry order (reports 0 — the C returns the normalised restart
+marker), the next frame is row 0, tick 0 of the entry order: playback stays on the same order. -/
+theorem C17_prev_entry (m : CMod) (s : St) (hst : Steady m s)
+    (hentry : s.pos = m.entry s.sequence) (hv : Valid m s.pos) :
+    ∃ s1 fr, xmpPrevPosition m s = some (0, s1) ∧ playFrame m s1 = some fr ∧
+      LandsOn m s fr s.pos s.sequence := by
+  obtain ⟨hp, hnp, hin, hend, hq1, hq0⟩ := hst
+  have h3 : ¬ s.sequence < 0 := by omega
+  have hl : (-1 : Int) < m.len := by omega
+  have hsp : setPosition m s (-1) (-1) = some { s with pos := -1, f := resetFlow s.f } := by
+    simp [setPosition, hq1, h3, setPositionFin, hl]
+  refine ⟨{ s with pos := -1, f := resetFlow s.f }, ⟨0, some (entered m { s with pos := -1, f := resetFlow s.f } s.pos
+      (repoEndPoint m { s with pos := -1, f := resetFlow s.f } s.pos)),
+    checkEnd m (entered m { s with pos := -1, f := resetFlow s.f } s.pos
+      (repoEndPoint m { s with pos := -1, f := resetFlow s.f } s.pos))⟩, ?_, ?_, ?_⟩
+  · simp [xmpPrevPosition, hp, hentry.symm, hsp]
+  · apply playFrame_enters m { s with pos := -1, f := resetFlow s.f } s.pos hp hend
+    · show s.ord ≠ -1; omega
+    · show (-1 : Int) ≠ -2; decide
+    · exact hv
+    · right; exact ⟨rfl, hentry.symm⟩
+    · show m.entry s.sequence ≤ s.pos; omega
+  · apply landsOn_entered m s { s with pos := -1, f := resetFlow s.f } s.pos s.sequence _ hv rfl rfl
+    simp [resetFlow]
+
+/-- **C17_next_prev, never leaves the sequence backwards**: when the order reached from `cur-1`
+is the end marker or an order of another sequence, `xmp_prev_position` changes nothing. -/
+theorem C17_prev_stays (m : CMod) (s : St) (t : Int) (hst : Steady m s)
+    (hprev : s.pos > m.entry s.sequence) (he : 0 ≤ m.entry s.sequence)
+    (ht : prevTarget m s.sequence s.pos = some t)
+    (hout : (m.marker = true ∧ m.xxoAt t = 0xff) ∨ m.seqOf t ≠ s.sequence) :
+    xmpPrevPosition m s = some (s.pos, s) := by
+  obtain ⟨hp, hnp, hin, hend, hq1, hq0⟩ := hst
+  unfold prevTarget at ht
+  have := setPosition_stay m s (s.pos - 1) (-1) t t (by decide) ⟨by omega, by omega⟩ hq1 hq0 ht
+    (by simp) (Or.inr hout)
+  have hne : ¬ (s.pos = m.entry s.sequence) := by omega
+  have h0 : ¬ (s.pos < 0) := by omega
+  simp [xmpPrevPosition, hp, hne, hprev, this, h0]
+
+/-- **C17_next_prev, termination**: every `set_position` call returns — the marker-skipping
+loop is a fuelled recursion whose fuel `len + 1` is proved sufficient (`skipMarkers_isSome`),
+so none of the position calls can hang (entry points are order indices, hence `≥ 0`); and the
+pass-over loop really ends within its fuel (`skipInvalid_exit`). -/
+theorem C17_marker_skipping_terminates (m : CMod) (s : St) (he : ∀ q, 0 ≤ m.entry q) (p t : Int) :
+    (xmpSetPosition m s p).isSome = true ∧ (xmpNextPosition m s).isSome = true ∧
+    (xmpPrevPosition m s).isSome = true ∧ (xmpSeekTime m s t).isSome = true := by
+  have key := fun pos dir => setPosition_isSome m s pos dir he
+  refine ⟨?_, ?_, ?_, ?_⟩
+  · unfold xmpSetPosition
+    split
+    · rfl
+    · split
+      · rfl
+      · rw [Option.isSome_map]; exact key _ _
+  · unfold xmpNextPosition
+    split
+    · rfl
+    · split
+      · rw [Option.isSome_map]; exact key _ _
+      · rfl
+  · unfold xmpPrevPosition
+    split
+    · rfl
+    · rw [Option.isSome_map]
+      split
+      · exact key _ _
+      · split
+        · exact key _ _
+        · rfl
+  · unfold xmpSeekTime
+    split
+    · rfl
+    · rw [Option.isSome_map]
+      split
+      · exact key _ _
+      · rw [Option.isSome_map]
+        unfold xmpSetPosition
+        split
+        · rfl
+        · split
+          · rfl
+          · rw [Option.isSome_map]; exact key _ _
+
+/-- marker module: orders `[0, 0xfe, 1, 0xff, 0]`, sequence 0 = orders 0..3, sequence 1 = order 4
+(harness: `H 1 2 5 0 1 0 0 6 125 / O 0 254 1 255 0 / R 64 64`). -/
+def wMark : CMod :=
+  { len := 5, pat := 2, marker := true, numSeq := 2, xxo := [0, 0xfe, 1, 0xff, 0], rows := [64, 64],
+    ctl := [0, 0, 0, 0, 1],
+    seqs := [{ entry := 0, scanOrd := 0, scanRow := 0, scanNum := 1 },
+             { entry := 4, scanOrd := 4, scanRow := 0, scanNum := 1 }],
+    info := [{ time := 0 }, { time := -1 }, { time := 7680 }, { time := -1 }, { time := 0 }] }
+
+def wMarkAt (o : Int) : St := { ord := o, pos := o, row := 5, frame := 2, f := { numRows := 64, delay := 2 } }
+
+example : Steady wMark (wMarkAt 0) := ⟨rfl, rfl, by decide, by decide, by decide⟩
+/-- next from order 0 passes over the skip marker at order 1 and lands on order 2 … -/
+example : ∃ s1 fr, xmpNextPosition wMark (wMarkAt 0) = some (2, s1) ∧ playFrame wMark s1 = some fr ∧
+    LandsOn wMark (wMarkAt 0) fr 2 0 :=
+  C17_next_inside wMark (wMarkAt 0) 2 ⟨rfl, rfl, by decide, by decide, by decide⟩ (by decide) (by decide) (by decide)
+/-- … from order 2 it stays put (the end marker follows) … -/
+example : xmpNextPosition wMark (wMarkAt 2) = some (2, wMarkAt 2) :=
+  C17_next_stays wMark (wMarkAt 2) ⟨rfl, rfl, by decide, by decide, by decide⟩ (Or.inr ⟨3, by decide, by decide⟩)
+/-- … at the last order of the list it stays put … -/
+example : xmpNextPosition wMark { wMarkAt 4 with sequence := 1 } = some (4, { wMarkAt 4 with sequence := 1 }) :=
+  C17_next_stays wMark _ ⟨rfl, rfl, by decide, by decide, by decide⟩ (Or.inl (by decide))
+/-- … prev from order 2 passes over the skip marker and lands on order 0 … -/
+example : ∃ s1 fr, xmpPrevPosition wMark (wMarkAt 2) = some (0, s1) ∧ playFrame wMark s1 = some fr ∧
+    LandsOn wMark (wMarkAt 2) fr 0 0 :=
+  C17_prev_inside wMark (wMarkAt 2) 0 ⟨rfl, rfl, by decide, by decide, by decide⟩ (by decide) (by decide) (by decide) (by decide)
+/-- … and prev at the entry point of sequence 1 re-enters order 4. -/
+example : ∃ s1 fr, xmpPrevPosition wMark { wMarkAt 4 with sequence := 1 } = some (0, s1) ∧ playFrame wMark s1 = some fr ∧
+    LandsOn wMark { wMarkAt 4 with sequence := 1 } fr 4 1 :=
+  C17_prev_entry wMark _ ⟨rfl, rfl, by decide, by decide, by decide⟩ (by decide) (by decide)
+example : nextTarget wTwo 0 0 = some 1 := C17_next_one_order wTwo 0 0 (by decide)
+
+/-! ### xmp_seek_time -/
+
+/-- **C17_seek_time**: `xmp_seek_time(t)` selects `i = max {j < len | xxo[j] < pat ∧
+seq(j) = current ∧ time(j) ≤ t}` (`SeekCand`): it reports `i`, leaves the sequence unchanged,
+and — unless `i` is the non-zero order being played — the next frame is row 0, tick 0 of `i`. -/
+theorem C17_seek_time (m : CMod) (s : St) (t : Int) (i : Nat) (hs : s.playing = true)
+    (hseq : s.sequence ≠ 0xff ∧ 0 ≤ s.sequence)
+    (hfind : seekFind m s.sequence t m.len.toNat = some i)
+    (hmk : m.marker = true → m.pat ≤ 0xfe) (hent : 0 ≤ m.entry s.sequence ∧ m.entry s.sequence ≤ i) :
+    (i : Int) < m.len ∧ SeekCand m s.sequence t i ∧
+    (∀ j : Nat, i < j → (j : Int) < m.len → ¬ SeekCand m s.sequence t j) ∧
+    ∃ s1, xmpSeekTime m s t = some ((i : Int), s1) ∧ s1.sequence = s.sequence ∧
+      s1.pos = (if (i : Int) = 0 then (-1 : Int) else (i : Int)) ∧
+      (¬(m.marker = true ∧ m.xxoAt s.ord = 0xff) → s.ord ≠ -1 → (s.ord ≠ i ∨ (i : Int) = 0) →
+        ∃ fr, playFrame m s1 = some fr ∧ LandsOn m s fr i s.sequence) := by
+  obtain ⟨hi, hc, hmax⟩ := seekFind_some m s.sequence t _ i hfind
+  have hil : (i : Int) < m.len := by omega
+  have hv : Valid m i := ⟨by omega, hil, hc.1, fun a => by have := hmk a; have := hc.1; omega⟩
+  have hsp : setPosition m s i 1 = some (landed m s s.sequence i) :=
+    setPosition_valid m s i 1 s.sequence hv (by simp) hc.2.1 hseq.1 hseq.2
+  refine ⟨hil, hc, fun j h1 h2 => hmax j h1 (by omega), landed m s s.sequence i, ?_, by simp [landed], by simp [landed], ?_⟩
+  · have hpos : (landed m s s.sequence i).pos = (if (i : Int) = 0 then (-1 : Int) else (i : Int)) := by simp [landed]
+    have hret : (if (landed m s s.sequence i).pos < 0 then 0 else (landed m s s.sequence i).pos) = (i : Int) := by
+      rw [hpos]
+      by_cases h0 : (i : Int) = 0
+      · rw [if_pos h0, if_pos (by decide), h0]
+      · rw [if_neg h0, if_neg (by omega)]
+    unfold xmpSeekTime
+    simp only [hs, hfind, hsp, Option.map_some, hret]
+    simp
+  · intro hend hord1 hcur
+    refine ⟨⟨0, some (entered m (landed m s s.sequence i) i (repoEndPoint m (landed m s s.sequence i) i)),
+      checkEnd m (entered m (landed m s s.sequence i) i (repoEndPoint m (landed m s s.sequence i) i))⟩, ?_, ?_⟩
+    · apply playFrame_enters m (landed m s s.sequence i) i
+      · simpa [landed] using hs
+      · simpa [landed] using hend
+      · simp only [landed]; split <;> omega
+      · simp only [landed]; split <;> omega
+      · exact hv
+      · by_cases h0 : (i : Int) = 0
+        · right; simp only [landed, h0, if_true, true_and]; omega
+        · left; simp only [landed, if_neg h0]
+      · simpa [landed] using hent.2
+    · apply landsOn_entered m s (landed m s s.sequence i) i s.sequence _ hv
+      · simp [landed]
+      · simp [landed]
+      · simp [landed, resetFlow]
+
+/-- **C17_seek_time, fallback**: when no order of the current sequence is entered by time `t`
+the call is `xmp_set_position(0)` (result normalised to `≥ 0`). -/
+theorem C17_seek_time_fallback (m : CMod) (s : St) (t : Int) (hs : s.playing = true)
+    (hfind : seekFind m s.sequence t m.len.toNat = none) :
+    (∀ j : Nat, (j : Int) < m.len → ¬ SeekCand m s.sequence t j) ∧
+    xmpSeekTime m s t = (xmpSetPosition m s 0).map fun r => ((if r.2.pos < 0 then 0 else r.2.pos), r.2) := by
+  refine ⟨fun j hj => seekFind_none m s.sequence t _ hfind j (by omega), ?_⟩
+  simp [xmpSeekTime, hs, hfind, Option.map_map, Function.comp_def]
+
+/-- seeking to 8000 ms in `wMark` (order 2 starts at 7680 ms) from order 0 selects order 2 … -/
+example : seekFind wMark 0 8000 wMark.len.toNat = some 2 := by decide
+example : (xmpSeekTime wMark (wMarkAt 0) 8000).map Prod.fst = some 2 := by decide
+/-- … and a negative time has no candidate. -/
+example : seekFind wMark 0 (-5) wMark.len.toNat = none := by decide
+
+/-! ### xmp_restart_module / xmp_stop_module -/
+
+/-- **C17_restart_stop (restart)**: `xmp_restart_module` clears the loop counter, and the next
+frame is row 0, tick 0 of the first order with a pattern from the entry point `e` of the current
+sequence (`t = e + k`, the `k` orders in between hold no pattern), in the same sequence; the
+loop counter is still 0 after that frame unless the frame is the recorded end point of the
+sequence with a visit count of 0 (storlek_11.it). -/
+theorem C17_restart (m : CMod) (s : St) (t : Int) (k : Nat) (hs : s.playing = true)
+    (hend : ¬(m.marker = true ∧ m.xxoAt s.ord = 0xff)) (hord : s.ord ≠ -1)
+    (he0 : 0 ≤ m.entry s.sequence) (hk : t = m.entry s.sequence + k) (hfuel : k < 600)
+    (hv : Valid m t) (hsk : ∀ j, m.entry s.sequence ≤ j → j < t → Skippable m j) :
+    (xmpRestart s).loopCount = 0 ∧
+    ∃ fr, playFrame m (xmpRestart s) = some fr ∧ Enters m s fr t s.sequence ∧
+      (¬(t = (m.seqAt s.sequence).scanOrd ∧ 0 = (m.seqAt s.sequence).scanRow ∧
+         ((m.seqAt s.sequence).scanNum = 0 ∨ m.entry s.sequence > (m.seqAt s.sequence).scanOrd)) →
+        (frameInfo m fr.st).loopCount = 0) := by
+  have hr : xmpRestart s = { s with loopCount := 0, pos := -1 } := by simp [xmpRestart, hs]
+  rw [hr]
+  refine ⟨rfl, ⟨0, some (entered m { s with loopCount := 0, pos := -1 } t
+      (repoEndPoint m { s with loopCount := 0, pos := -1 } (m.entry s.sequence))),
+    checkEnd m (entered m { s with loopCount := 0, pos := -1 } t
+      (repoEndPoint m { s with loopCount := 0, pos := -1 } (m.entry s.sequence)))⟩, ?_, ?_, ?_⟩
+  · exact playFrame_enters_skip m { s with loopCount := 0, pos := -1 } (m.entry s.sequence) t k hs hend hord
+      (by show (-1 : Int) ≠ -2; decide) hv he0 hk hsk (Or.inr ⟨rfl, rfl⟩) (Int.le_refl _) hfuel
+  · exact enters_entered m s { s with loopCount := 0, pos := -1 } t s.sequence _ hv rfl rfl
+  · intro hne
+    obtain ⟨e1, _, e3, _, e5, _, _, _, _, e10, _, e12⟩ := entered_fields m { s with loopCount := 0, pos := -1 } t
+      (repoEndPoint m { s with loopCount := 0, pos := -1 } (m.entry s.sequence))
+    show (checkEnd m _).loopCount = 0
+    rw [checkEnd_loopCount]
+    · rw [e10]
+    · rw [e1, e3, e5, e12]
+      intro ⟨h1, h2, h3⟩
+      apply hne
+      refine ⟨h1, h2, ?_⟩
+      simp only [repoEndPoint, CMod.entry] at h3
+      by_cases hgt : (m.seqAt s.sequence).entry > (m.seqAt s.sequence).scanOrd
+      · right; exact hgt
+      · left; simpa [hgt] using h3
+
+/-- **C17_restart_stop (stop)**: after `xmp_stop_module` the next frame reports the end
+(`-XMP_END`) and changes nothing. -/
+theorem C17_stop (m : CMod) (s : St) (hs : s.playing = true) (hord : s.ord ≠ -2) :
+    playFrame m (xmpStop s) = some ⟨rcEnd, none, xmpStop s⟩ := by
+  have hr : xmpStop s = { s with pos := -2 } := by simp [xmpStop, hs]
+  rw [hr]
+  unfold playFrame
+  by_cases h1 : m.len ≤ 0
+  · simp [hs, h1]
+  · by_cases h2 : m.marker = true ∧ m.xxoAt s.ord = 0xff
+    · simp [hs, h1, h2]
+    · simp [hs, h1, h2, hord]
+
+/-- restart from the middle of order 2 of `wMark` (sequence 0) … -/
+example : ∃ fr, playFrame wMark (xmpRestart (wMarkAt 2)) = some fr ∧ Enters wMark (wMarkAt 2) fr 0 0 ∧
+    (¬((0 : Int) = (wMark.seqAt 0).scanOrd ∧ 0 = (wMark.seqAt 0).scanRow ∧
+      ((wMark.seqAt 0).scanNum = 0 ∨ wMark.entry 0 > (wMark.seqAt 0).scanOrd)) → (frameInfo wMark fr.st).loopCount = 0) :=
+  (C17_restart wMark (wMarkAt 2) 0 0 rfl (by decide) (by decide) (by decide) (by decide) (by decide) (by decide)
+    (by intro j h1 h2; simp [wMarkAt, wMark, CMod.entry, CMod.seqAt, getI] at h1; omega)).2
+/-- … and stop. -/
+example : playFrame wMark (xmpStop (wMarkAt 2)) = some ⟨rcEnd, none, xmpStop (wMarkAt 2)⟩ :=
+  C17_stop wMark (wMarkAt 2) rfl (by decide)
 
 end Xmp.Control
